@@ -52,6 +52,7 @@ func genSubsec(r *gen.Rand) *ssCase {
 	sc := &ssCase{}
 	sc.Cfg = tcfg{Sliding: r.Bool(), VStore: r.Bool(), Max: r.Range(1, 4), Dyn: r.Bool(), NKeys: 2,
 		ExpNs: int64(gen.Pick(r, subsecExpirations))}
+	sc.Cfg.RefStore = sc.Cfg.VStore && r.Bool()
 	sc.KeyMax = [2]int{sc.Cfg.Max, sc.Cfg.Max}
 	if sc.Cfg.Dyn {
 		sc.KeyMax = [2]int{r.Range(1, 4), r.Range(1, 4)}
